@@ -30,7 +30,8 @@ type Root struct {
 	Kind  int  // 0 cell, 1 array backing store, 2 map
 	Elem  Sort // element sort for array roots; map sort for map roots
 	N     int  // static length for [N]T allocations (else -1)
-	Label string
+	Label string // provenance of the storage itself
+	ElemLabel string // provenance of what the stored elements may reference ("" = same as Label)
 }
 
 type Step struct {
@@ -51,6 +52,9 @@ type Val struct {
 	Tup      []Val
 	NilAddr  bool
 	Iter     *mapIter
+	Lab      string // provenance of a term value (what it may reference)
+	FLab     map[int]string // per-field provenance overrides for struct terms (deep)
+	FOwn     map[int]string // per-field provenance of the field's own storage (slices/maps)
 }
 
 type mapIter struct {
@@ -255,13 +259,57 @@ func (e *Exec) newRoot(name string, kind int, elem Sort, label string) *Root {
 
 func termVal(t Term) Val { return Val{K: vTerm, T: t} }
 
+func labVal(t Term, lab string) Val { return Val{K: vTerm, T: t, Lab: lab} }
+
+// labelOf: what storage a value may reference (deep provenance).
+func labelOf(v Val) string {
+	switch v.K {
+	case vSlice, vMap:
+		if v.R != nil {
+			return joinLabel(v.R.Label, elemLabel(v.R))
+		}
+	case vTerm:
+		l := v.Lab
+		if l == "" {
+			l = "fresh"
+		}
+		for _, fl := range v.FLab {
+			l = joinLabel(l, fl)
+		}
+		return l
+	case vTuple:
+		l := "fresh"
+		for _, x := range v.Tup {
+			l = joinLabel(l, labelOf(x))
+		}
+		return l
+	}
+	return "fresh"
+}
+
+func elemLabel(r *Root) string {
+	if r.ElemLabel != "" {
+		return r.ElemLabel
+	}
+	return r.Label
+}
+
+func plainLabel(l string) string {
+	return strings.TrimPrefix(l, "spare:")
+}
+
 // wrap turns a term into a Val; slice and map sorted terms get a root.
 func (e *Exec) wrap(st *State, t Term, label string) Val {
 	u := e.p.U
 	if u.IsSlice(t.Sort) {
 		d := u.DT(t.Sort)
 		r := e.newRoot("s", 1, d.Elem, label)
+		r.ElemLabel = label
 		st.mem[r] = u.SArr(t)
+		if e.binder == 0 && !strings.HasPrefix(t.S, "(mk_") {
+			// type invariant of every slice value
+			e.assume(Cmp(">=", u.SLen(t), IntLit(0)))
+		}
 		return Val{K: vSlice, R: r, Off: IntLit(0), Len: u.SLen(t), S: t.Sort, T: t}
 	}
 	if u.IsMap(t.Sort) {
@@ -269,7 +317,17 @@ func (e *Exec) wrap(st *State, t Term, label string) Val {
 		st.mem[r] = t
 		return Val{K: vMap, R: r, S: t.Sort}
 	}
-	return termVal(t)
+	return labVal(t, label)
+}
+
+// wrapOwn is wrap with a separate label for the value's own storage (slices and maps).
+func (e *Exec) wrapOwn(st *State, t Term, deep, own string) Val {
+	v := e.wrap(st, t, deep)
+	if own != "" && v.R != nil {
+		v.R.Label = own
+		v.R.ElemLabel = deep
+	}
+	return v
 }
 
 func (e *Exec) toTerm(st *State, v Val) Term {
@@ -324,7 +382,11 @@ func (e *Exec) freshVal(st *State, name string, t types.Type, label string, pc T
 	}
 	c := e.fresh(name, s)
 	e.assumeTypeInv(c, t)
-	return e.wrap(st, c, label)
+	v := e.wrap(st, c, label)
+	if v.R != nil {
+		v.R.ElemLabel = label
+	}
+	return v
 }
 
 // assumeTypeInv assumes representation invariants of a fresh term: slice lengths and offsets are
@@ -385,7 +447,19 @@ func (e *Exec) load(st *State, a Val, pos token.Pos) Val {
 			return cv
 		}
 		t := e.toTerm(st, cv)
-		return e.wrap(st, e.project(t, r, a.Path), r.Label)
+		lab := labelOf(cv)
+		own := ""
+		if cv.K == vTerm && a.Path[0].IsField {
+			if fl, ok := cv.FLab[a.Path[0].Field]; ok {
+				lab = fl
+				own = cv.FOwn[a.Path[0].Field]
+			} else if cv.Lab != "" {
+				lab = cv.Lab
+			} else {
+				lab = "fresh"
+			}
+		}
+		return e.wrapOwn(st, e.project(t, r, a.Path), lab, own)
 	}
 	if r.Kind == 1 {
 		arr := st.mem[r]
@@ -398,7 +472,7 @@ func (e *Exec) load(st *State, a Val, pos token.Pos) Val {
 			panic("load: field step on array root")
 		}
 		t := App(r.Elem, "select", arr, a.Path[0].Index)
-		return e.wrap(st, e.project(t, r, a.Path[1:]), r.Label)
+		return e.wrap(st, e.project(t, r, a.Path[1:]), plainLabel(elemLabel(r)))
 	}
 	panic("load: bad root kind")
 }
@@ -459,10 +533,31 @@ func (e *Exec) store(st *State, a Val, v Val, pos token.Pos) {
 		cv := st.cell[r]
 		cur := e.toTerm(st, cv)
 		nt := e.updPath(cur, a.Path, e.toTerm(st, v))
-		st.cell[r] = e.wrap(st, e.name("c_"+r.Name, nt), r.Label)
+		if cv.K == vTerm && a.Path[0].IsField && len(a.Path) == 1 {
+			// strong update of one field: keep per-field provenance
+			nv := labVal(e.name("c_"+r.Name, nt), cv.Lab)
+			nv.FLab = map[int]string{}
+			for k, l := range cv.FLab {
+				nv.FLab[k] = l
+			}
+			nv.FLab[a.Path[0].Field] = plainLabel(labelOf(v))
+			nv.FOwn = map[int]string{}
+			for k, l := range cv.FOwn {
+				nv.FOwn[k] = l
+			}
+			if (v.K == vSlice || v.K == vMap) && v.R != nil {
+				nv.FOwn[a.Path[0].Field] = v.R.Label
+			} else {
+				delete(nv.FOwn, a.Path[0].Field)
+			}
+			st.cell[r] = nv
+			return
+		}
+		st.cell[r] = e.wrap(st, e.name("c_"+r.Name, nt), joinLabel(labelOf(cv), plainLabel(labelOf(v))))
 		return
 	}
 	if r.Kind == 1 {
+		r.ElemLabel = joinLabel(elemLabel(r), plainLabel(labelOf(v)))
 		arr := st.mem[r]
 		if len(a.Path) == 0 {
 			// whole-array store
@@ -566,14 +661,16 @@ func (e *Exec) mergeVals(out *State, sts []*State, vs []Val, conds []Term, name 
 	switch vs[0].K {
 	case vTerm:
 		t := vs[len(vs)-1].T
+		lab := labelOf(vs[len(vs)-1])
 		for i := len(vs) - 2; i >= 0; i-- {
 			if vs[i].K != vTerm {
 				e.fail("merge of mixed value kinds for %s", name)
 				return vs[0]
 			}
 			t = Ite(conds[i], vs[i].T, t)
+			lab = joinLabel(lab, labelOf(vs[i]))
 		}
-		return termVal(e.name("j_"+name, t))
+		return labVal(e.name("j_"+name, t), lab)
 	case vSlice, vMap:
 		// Same root with different views: merge views. Different roots: new root holding the merge.
 		sameRoot := true
@@ -621,9 +718,9 @@ func (e *Exec) mergeVals(out *State, sts []*State, vs []Val, conds []Term, name 
 				t = Ite(conds[i], ti, t)
 			}
 		}
-		label := vs[0].R.Label
+		label := labelOf(vs[0])
 		for _, v := range vs[1:] {
-			label = joinLabel(label, v.R.Label)
+			label = joinLabel(label, labelOf(v))
 		}
 		return e.wrap(out, e.name("j_"+name, t), label)
 	case vAddr, vClo, vNone, vIter:
@@ -646,7 +743,19 @@ func joinLabel(a, b string) string {
 	if b == "fresh" {
 		return a
 	}
-	return a + "|" + b
+	parts := map[string]bool{}
+	var out []string
+	for _, p := range strings.Split(a+"|"+b, "|") {
+		if p != "" && p != "fresh" && !parts[p] {
+			parts[p] = true
+			out = append(out, p)
+		}
+	}
+	sort.Strings(out)
+	if len(out) == 0 {
+		return "fresh"
+	}
+	return strings.Join(out, "|")
 }
 
 func sameVal(a, b Val) bool {
@@ -655,7 +764,7 @@ func sameVal(a, b Val) bool {
 	}
 	switch a.K {
 	case vTerm:
-		return a.T.S == b.T.S
+		return a.T.S == b.T.S && a.Lab == b.Lab
 	case vSlice:
 		return a.R == b.R && a.Off.S == b.Off.S && a.Len.S == b.Len.S
 	case vMap:
